@@ -157,9 +157,10 @@ def check(ctx):
             ctx.fail('py-time', {'family': name, 'parser': 'pybrace', 'example': f(24)[:60]},
                      'pybrace.FormatString time is not linear on this family: ' + desc)
     return common.finish(
-        ctx, 'other', build, aud, TRUSTED, ASSUME,
-        explanation='Partial: perl-brace fully proved; python-brace inclusion theorems proved outside the recorded findings, the flat-fields formatting theorem only for the '
-                    'per-spec type sets; time of the real regex is measured on doubling families, not proved.',
+        ctx, 'proof', build, aud, TRUSTED, ASSUME,
+        explanation='Every functional clause is a Coq theorem about the models (perl-brace iff; python-brace inclusion both ways outside D25; own errors only; flat fields format '
+                    'successfully with the reported positions, names and types outside D24). The clause "in time linear in the length" is proved for the model scanners only; on the '
+                    'real re engine it is measured on doubling families, which no theorem here covers.',
         checker_cmd='tools/build.sh (coq_makefile + make: coqc on Props/C13.v) then coqc Audit_C13.v (Print Assumptions)',
         rule='python-brace: all strings of length <= %d over %r, every "{:spec}" with spec of length <= %d over a 20-character spec alphabet, random '
              'concatenations/mutations of field fragments, boundary numbers; on each: extracted model vs pybrace.FormatString (error class and argument, '
